@@ -687,6 +687,11 @@ class NetworkGraph(AbstractBaseIR):
         # update input information of node operators connected to this operator
         for succ in node_ir.op_graph.succ[op]:
             inputs = self[f"{node}/{succ}"]['inputs']
+            # operators of the same node that read this operator's output keep reading the (undelayed) variable they
+            # are wired to by name, not the buffered variable that becomes the operator's output below
+            for in_name, in_info in inputs.items():
+                if op in in_info.get('sources', ()) and 'var' not in in_info and 'node' not in in_info:
+                    in_info['var'] = in_name
             if var not in inputs.keys():
                 inputs[var] = {'sources': {op}}
 
